@@ -1,15 +1,110 @@
 /-
-  Driver handlers for the Bech32 model. `handle op args` returns `none` when the
-  operation is not one of this file's.
+  Driver handlers for the Bech32 / key-string model (C09, C17).  All arguments
+  are byte strings in hex (`-` = empty); outputs use `Wire.sum`.
+
+    b32enc <hrp> <data>     → ok <string> | err          bech32.Encode
+    b32dec <string>         → ok <hrp> <data> | err      bech32.Decode
+    b32decx <string>        → ok … | err:<class>          (diagnostic: the model's error class)
+    xrec <string>           → ok <key> | err              age.ParseX25519Recipient
+    xid <string>            → ok <key> | err              age.ParseX25519Identity
+    xrecstr <key>           → <string>                    (*X25519Recipient).String
+    xidstr <key>            → <string>                    (*X25519Identity).String
+    prec <string>           → ok <name> <data> | err      plugin.ParseRecipient
+    pid <string>            → ok <name> <data> | err      plugin.ParseIdentity
+    pencrec <name> <data>   → <string>  ("-" when the name is invalid)   plugin.EncodeRecipient
+    pencid <name> <data>    → <string>  ("-" when the name is invalid)   plugin.EncodeIdentity
+    nrec <string>           → ok <name> <encoding> | err   plugin.NewRecipient
+    nid <string>            → ok <name> <encoding> | err   plugin.NewIdentity
+    pidnodata <name>        → ok <name> <encoding> | err   plugin.NewIdentityWithoutData
+    pexec <name>            → <command> | sep             first argument of exec.Command in openClientConnection
+                              for a client value with that name (`sep`: refused, nothing is started)
+    clirec <arg>            → plugin <name> <command> | x25519 <key> | ssh | err    cmd/age parseRecipient
+    cliid <arg>             → plugin <name> <command> | x25519 <key> | err          cmd/age parseIdentity
+    clij <name>             → plugin <name> <command> | err                         cmd/age -j
+    kconsts                 → ok | bad    byte constants of the model equal the string literals
 -/
 import AgeModel.Wire
+import AgeModel.Keys
 namespace AgeModel
 namespace Exec
 namespace Bech32
+open Wire Keys
+
+def errClass : AgeModel.Bech32.Err → String
+  | .badChar => "badchar" | .mixedCase => "mixedcase" | .badSeparator => "badseparator"
+  | .badHrpChar => "badhrpchar" | .badDataChar => "baddatachar" | .badChecksum => "badchecksum"
+  | .badRange => "badrange" | .badPaddingIllegal => "badpaddingillegal"
+  | .badPaddingNonZero => "badpaddingnonzero" | .badHrpEmpty => "badhrpempty" | .indexPanic => "indexpanic"
+
+def pair : Except Keys.Err (Bytes × Bytes) → String
+  | .ok (a, b) => s!"ok {sum a} {sum b}"
+  | .error _ => "err"
+
+def key : Except Keys.Err Bytes → String
+  | .ok k => s!"ok {sum k}"
+  | .error _ => "err"
+
+def command (c : Client) : String :=
+  match openClientCommand c with
+  | .ok p => sum p
+  | .error _ => "sep"
+
+def client : Except Keys.Err Client → String
+  | .ok c => s!"ok {sum c.name} {sum c.encoding}"
+  | .error _ => "err"
+
+def cli : Except Keys.Err CliValue → String
+  | .ok (.plugin c) => s!"plugin {sum c.name} {command c}"
+  | .ok (.x25519Recipient k) => s!"x25519 {sum k}"
+  | .ok (.x25519Identity k) => s!"x25519 {sum k}"
+  | .ok .ssh => "ssh"
+  | .error _ => "err"
+
+def un1 (args : List String) (f : Bytes → String) : String :=
+  match args with
+  | [a] => match unhex a with
+    | some a => f a
+    | none => "bad-args"
+  | _ => "bad-arity"
+
+def un2 (args : List String) (f : Bytes → Bytes → String) : String :=
+  match args with
+  | [a, b] => match unhex a, unhex b with
+    | some a, some b => f a b
+    | _, _ => "bad-args"
+  | _ => "bad-arity"
 
 def handle (op : String) (args : List String) : Option String :=
-  match op, args with
-  | _, _ => none
+  match op with
+  | "b32enc" => some <| un2 args fun hrp data =>
+      match AgeModel.Bech32.encode hrp data with
+      | .ok s => s!"ok {sum s}"
+      | .error _ => "err"
+  | "b32dec" => some <| un1 args fun s =>
+      match AgeModel.Bech32.decode s with
+      | .ok (hrp, data) => s!"ok {sum hrp} {sum data}"
+      | .error _ => "err"
+  | "b32decx" => some <| un1 args fun s =>
+      match AgeModel.Bech32.decode s with
+      | .ok (hrp, data) => s!"ok {sum hrp} {sum data}"
+      | .error e => s!"err:{errClass e}"
+  | "xrec" => some <| un1 args fun s => key (parseX25519Recipient s)
+  | "xid" => some <| un1 args fun s => key (parseX25519Identity s)
+  | "xrecstr" => some <| un1 args fun k => sum (recipientString k)
+  | "xidstr" => some <| un1 args fun k => sum (identityString k)
+  | "prec" => some <| un1 args fun s => pair (parseRecipient s)
+  | "pid" => some <| un1 args fun s => pair (parseIdentity s)
+  | "pencrec" => some <| un2 args fun n d => sum (encodeRecipient n d)
+  | "pencid" => some <| un2 args fun n d => sum (encodeIdentity n d)
+  | "nrec" => some <| un1 args fun s => client (newRecipient s)
+  | "nid" => some <| un1 args fun s => client (newIdentity s)
+  | "pidnodata" => some <| un1 args fun n => client (newIdentityWithoutData n)
+  | "pexec" => some <| un1 args fun n => command { name := n, encoding := [] }
+  | "clirec" => some <| un1 args fun s => cli (cliParseRecipient s)
+  | "cliid" => some <| un1 args fun s => cli (cliParseIdentity s)
+  | "clij" => some <| un1 args fun s => cli (cliPluginFlag s)
+  | "kconsts" => some (if constsOk then "ok" else "bad")
+  | _ => none
 
 end Bech32
 end Exec
